@@ -46,6 +46,7 @@ type SeqSys[T comparable] struct {
 	JSONs [][]int
 	// JSONTexts: raw inputs (null entries) whose denotation is fixed by decoding into a fresh slice
 	JSONTexts []string
+	Label     string
 }
 
 func (s *SeqSys[T]) Name() string {
@@ -56,6 +57,7 @@ func (s *SeqSys[T]) Name() string {
 	if s.Gen != nil {
 		n += "/deep"
 	}
+	n += s.Label
 	return n
 }
 func (s *SeqSys[T]) Props() []string { return []string{"C05", "C15"} }
